@@ -1,4 +1,5 @@
 pub mod cluster;
+pub mod hostile;
 pub mod kv;
 pub mod mtu;
 pub mod pair;
